@@ -371,6 +371,255 @@ def flat(t):
 
 
 
+# ---------------------------------------------------------------------------------- monitors: full renders
+EPS = 1e-4
+WORDS = ['a', 'ab', 'abc', 'abcd', 'abcde', 'abcdef', 'abcdefg', 'abcdefgh', 'hg', 'fed', 'cab']
+
+
+def gen_float_doc(rng, inline_floats=True):
+    """1..12 left/right floats of random size/margin/clear mixed with paragraphs (some floats inside the text),
+    formatting-context roots, tables and a nested narrower block, in a container of random width."""
+    W = rng.choice([150, 200, 200, 320])
+    n_floats = [0]
+    ids = [0]
+
+    def nid(prefix):
+        ids[0] += 1
+        return '%s%d' % (prefix, ids[0])
+
+    def fl(inline=False, maxw=None):
+        n_floats[0] += 1
+        maxw = maxw or W
+        side = rng.choice(['left', 'right'])
+        st = ['float:%s' % side]
+        if rng.random() < 0.75:
+            st.append('width:%dpx' % rng.choice([20, 30, 50, 60, 80, 100, maxw // 2, maxw - 10, maxw, maxw + 20]))
+            st.append('height:%dpx' % rng.choice([5, 10, 15, 20, 30, 60]))
+            txt = ''
+        else:
+            txt = ' '.join(rng.choice(WORDS) for _ in range(rng.randint(1, 4)))
+            if rng.random() < 0.4:
+                st.append('width:%dpx' % rng.choice([40, 80]))
+        r = rng.random()
+        if r < 0.25:
+            st.append('margin:%dpx' % rng.choice([1, 3, 5]))
+        elif r < 0.4:
+            st.append('margin:%dpx %dpx %dpx %dpx' % tuple(rng.choice([0, 2, 5, 10]) for _ in range(4)))
+        if rng.random() < 0.15:
+            st.append('padding:%dpx' % rng.choice([1, 4]))
+        if rng.random() < 0.15:
+            st.append('border:%dpx solid' % rng.choice([1, 2]))
+        if rng.random() < 0.25:
+            st.append('clear:%s' % rng.choice(['left', 'right', 'both']))
+        return '<%s id="%s" style="%s">%s</%s>' % ('span' if inline else 'div', nid('f'), ';'.join(st), txt,
+                                                  'span' if inline else 'div')
+
+    def para():
+        words = [rng.choice(WORDS) for _ in range(rng.randint(1, 25))]
+        k = 0
+        while inline_floats and n_floats[0] < 12 and rng.random() < 0.3 and k < 3:
+            words.insert(rng.randint(0, len(words)), fl(inline=True))
+            k += 1
+        st = []
+        if rng.random() < 0.15:
+            st.append('clear:%s' % rng.choice(['left', 'right', 'both']))
+        return '<p id="%s" style="margin:0;%s">%s</p>' % (nid('p'), ';'.join(st), ' '.join(words))
+
+    def bfc():
+        st = ['overflow:hidden', 'height:%dpx' % rng.choice([10, 20, 30])]
+        if rng.random() < 0.85:
+            st.append('width:%dpx' % rng.choice([40, 60, 100, W - 20, W]))
+        if rng.random() < 0.2:
+            st.append('margin-left:%dpx' % rng.choice([5, 20]))
+        if rng.random() < 0.15:
+            st.append('clear:%s' % rng.choice(['left', 'right', 'both']))
+        return '<div id="%s" style="%s"></div>' % (nid('b'), ';'.join(st))
+
+    def table():
+        return ('<table id="%s" style="border-spacing:0"><tr><td style="width:%dpx;height:%dpx;padding:0"></td></tr></table>'
+                % (nid('t'), rng.choice([40, 100, W - 30]), rng.choice([10, 20])))
+
+    def items(n, depth):
+        out = []
+        for _ in range(n):
+            r = rng.random()
+            if r < 0.42 and n_floats[0] < 12:
+                out.append(fl())
+            elif r < 0.72:
+                out.append(para())
+            elif r < 0.84:
+                out.append(bfc())
+            elif r < 0.9:
+                out.append(table())
+            elif depth == 0:
+                out.append('<div id="%s" style="margin-left:%dpx;margin-right:%dpx">%s</div>' % (
+                    nid('n'), rng.choice([0, 10, 30]), rng.choice([0, 10, 40]), ''.join(items(rng.randint(1, 4), 1))))
+            else:
+                out.append(para())
+        return out
+    body = ''.join(items(rng.randint(2, 14), 0))
+    if n_floats[0] == 0:
+        body = fl() + body
+    cst = ['width:%dpx' % W]
+    if rng.random() < 0.3:
+        cst.append('padding-left:%dpx' % rng.choice([5, 15]))
+    if rng.random() < 0.3:
+        cst.append('margin-left:%dpx' % rng.choice([10, 25]))
+    return ('<style>@page{size:420px 20000px;margin:%dpx}body{margin:0;font-family:weasyprint;font-size:10px;'
+            'line-height:10px}</style><div id="c" style="%s">%s</div>' % (rng.choice([0, 10]), ';'.join(cst), body))
+
+
+def v_overlap(a_y, a_h, b_y, b_h):
+    return a_y < b_y + b_h - EPS and b_y < a_y + a_h - EPS
+
+
+def rect_overlap(ax, ay, aw, ah, bx, by, bw, bh):
+    return (ax < bx + bw - EPS and bx < ax + aw - EPS and ay < by + bh - EPS and by < ay + ah - EPS
+            and aw > EPS and ah > EPS and bw > EPS and bh > EPS)
+
+
+def judge_floats(res):
+    """The nine rules of CSS 2.1 9.5.1 and the no-overlap / clear clauses on one rendered document.
+    Returns [(clause, id, detail)]."""
+    bad = []
+    if res['npages'] != 1:
+        return [('single-page', None, res['npages'])]
+    recs = res['recs']
+    floats = [r for r in recs if r['kind'] == 'float']
+    byidx = {r['idx']: r for r in recs}
+    for f in floats:
+        if f['bh'] < EPS:
+            # zero-height floats are sent to the page origin (open known finding); not generated
+            bad.append(('zero-height-float', f['id'], (f['x'], f['y'])))
+    children_of = {}
+    for r in recs:
+        children_of.setdefault(r['parent'], []).append(r)
+
+    def descendants(idx):
+        out = []
+        for c in children_of.get(idx, []):
+            out.append(c)
+            out += descendants(c['idx'])
+        return out
+    for i, f in enumerate(floats):
+        earlier = floats[:i]
+        x, y, mw, mh = f['x'], f['y'], f['mw'], f['mh']
+        cbx, cbw, cby = f['cbx'], f['cbw'], f['cby']
+        # rule 1
+        if f['side'] == 'left' and x < cbx - EPS:
+            bad.append(('rule1-left-edge-inside-cb', f['id'], (x, cbx)))
+        if f['side'] == 'right' and x + mw > cbx + cbw + EPS:
+            bad.append(('rule1-right-edge-inside-cb', f['id'], (x + mw, cbx + cbw)))
+        # rules 2, 3: no overlap with any earlier float
+        for e in earlier:
+            if rect_overlap(x, y, mw, mh, e['x'], e['y'], e['mw'], e['mh']):
+                bad.append(('rule2-3-floats-overlap', f['id'], (e['id'], (x, y, mw, mh), (e['x'], e['y'], e['mw'], e['mh']))))
+        # rule 4
+        if y < cby - EPS:
+            bad.append(('rule4-above-containing-block', f['id'], (y, cby)))
+        # rule 5
+        for e in earlier:
+            if y < e['y'] - EPS:
+                bad.append(('rule5-above-earlier-float', f['id'], (e['id'], y, e['y'])))
+        # rule 6: not above an earlier line box (nor the one it occurs in)
+        for r in recs:
+            if r['kind'] == 'line' and r['idx'] < f['idx'] and y < r['y'] - EPS:
+                bad.append(('rule6-above-earlier-line', f['id'], (r['id'], y, r['y'])))
+        # rule 7: sticks out only when nothing is to its side
+        band = [e for e in earlier if v_overlap(y, mh, e['y'], e['mh']) and e['mh'] > EPS]
+        if f['side'] == 'left' and x + mw > cbx + cbw + EPS and any(e['side'] == 'left' and e['x'] + e['mw'] <= x + EPS and e['mw'] > EPS for e in band) and mh > EPS:
+            bad.append(('rule7-left-float-sticks-out-next-to-another', f['id'], (x + mw, cbx + cbw)))
+        if f['side'] == 'right' and x < cbx - EPS and any(e['side'] == 'right' and e['x'] >= x + mw - EPS and e['mw'] > EPS for e in band) and mh > EPS:
+            bad.append(('rule7-right-float-sticks-out-next-to-another', f['id'], (x, cbx)))
+        if mh <= EPS or f['bh'] < EPS:
+            continue
+        # clear
+        for e in earlier:
+            if f['clear'] in (e['side'], 'both') and y < e['y'] + e['mh'] - EPS:
+                bad.append(('clear-float-below', f['id'], (e['id'], y, e['y'] + e['mh'])))
+        # rule 9: as far to its side as possible
+        if f['side'] == 'left':
+            if not (abs(x - cbx) < EPS or any(e['side'] == 'left' and abs(e['x'] + e['mw'] - x) < EPS for e in band)):
+                bad.append(('rule9-left-float-not-far-left', f['id'], (x, cbx)))
+        else:
+            if not (abs(x + mw - cbx - cbw) < EPS or any(e['side'] == 'right' and abs(e['x'] - x - mw) < EPS for e in band)):
+                bad.append(('rule9-right-float-not-far-right', f['id'], (x + mw, cbx + cbw)))
+        # rule 8: as high as possible.  A safe (high) lower bound of where the float may start:
+        low = cby
+        for e in earlier:
+            low = max(low, e['y'])
+            if f['clear'] in (e['side'], 'both'):
+                low = max(low, e['y'] + e['mh'])
+        par = byidx.get(f['parent'])
+        if par is not None and par['kind'] == 'line':
+            low = max(low, par['y'] if y < par['y'] + par['mh'] - EPS else par['y'] + par['mh'])
+        for r in recs:                     # everything in flow that precedes it: it starts below
+            if r['idx'] < f['idx'] and r['kind'] in ('line', 'bfc', 'table') and r['idx'] != f['parent']:
+                low = max(low, r['by'] + r['bh'] if r['kind'] != 'line' else r['y'] + r['mh'])
+        for y2 in sorted(set([low] + [e['y'] + e['mh'] for e in earlier])):
+            if y2 < low - EPS or y2 >= y - EPS:
+                continue
+            b2 = [e for e in earlier if v_overlap(y2, mh, e['y'], e['mh']) and e['mh'] > EPS]
+            lb = max([cbx] + [e['x'] + e['mw'] for e in b2 if e['side'] == 'left'])
+            rb = min([cbx + cbw] + [e['x'] for e in b2 if e['side'] == 'right'])
+            if not b2 or mw <= rb - lb + EPS:
+                bad.append(('rule8-float-could-be-higher', f['id'], (y, y2, (lb, rb, mw))))
+                break
+    # lines, formatting-context roots and tables never overlap a float's margin box; clear moves below
+    for r in recs:
+        if r['kind'] in ('line', 'bfc', 'table'):
+            rx, ry, rw, rh = (r['cx'], r['y'], r['cw'], r['mh']) if r['kind'] == 'line' else (r['bx'], r['by'], r['bw'], r['bh'])
+            for f in floats:
+                if f['bh'] < EPS:
+                    continue
+                if r['parent'] == f['idx']:
+                    continue
+                if rect_overlap(rx, ry, rw, rh, f['x'], f['y'], f['mw'], f['mh']):
+                    bad.append(('%s-overlaps-float' % r['kind'], r['id'], (f['id'], (rx, ry, rw, rh), (f['x'], f['y'], f['mw'], f['mh']))))
+        if r['kind'] in ('block', 'bfc', 'table') and r['clear'] != 'none' and not r['anon']:
+            for f in floats:
+                if f['idx'] < r['idx'] and r['clear'] in (f['side'], 'both') and f['bh'] >= EPS and f['mh'] > EPS:
+                    if r['by'] < f['y'] + f['mh'] - EPS:
+                        bad.append(('clear-block-below', r['id'], (f['id'], r['by'], f['y'] + f['mh'])))
+    return bad
+
+
+def run_monitor(run, name, fn, docs, judge, rule, sig_prefix, **info):
+    outs = common.run_impl('impl_c11', fn, docs, limit=60)
+    njudged = 0
+    clauses = set()
+    for d, (st, o) in zip(docs, outs):
+        if st == 'timeout':
+            run.fail('%s: render timeout' % name, {'stream': name, 'doc': d}, signature='timeout')
+            continue
+        if st == 'exc':
+            run.fail('%s: render raised %s at %s' % (name, o['type'], o['site']), {'stream': name, 'doc': d, 'exc': o},
+                     signature='crash:%s' % (o['site'],))
+            continue
+        bad, n = judge(d, o)
+        njudged += n
+        seen = set()
+        for clause, eid, detail in bad:
+            if clause in seen:
+                continue
+            seen.add(clause)
+            run.fail('%s: %s fails for #%s: %s' % (name, clause, eid, detail),
+                     {'stream': name, 'doc': d, 'clause': clause, 'element': eid, 'detail': detail},
+                     signature='%s:%s' % (sig_prefix, clause))
+    run.count(name, len(docs), [(name, i) for i in range(len(docs))], samples=[str(docs[0])[:700]])
+    run.stream_info(name, rule=rule, judged_boxes=njudged, judge='Python (floats compared with tolerance 1e-4)', **info)
+
+
+def check_float_monitor(run, rng, thorough):
+    docs = [{'html': gen_float_doc(rng, inline_floats=False)} for _ in range(3000 if thorough else 600)]
+    run_monitor(run, 'render-floats', 'render_floats', docs,
+                lambda d, o: (judge_floats(o), sum(1 for r in o['recs'] if r['kind'] == 'float')),
+                '1..12 left/right floats (fixed size or shrink-to-fit text, margins, padding, borders, clear) as blocks '
+                'and inside paragraphs, with paragraphs, overflow:hidden roots, tables, one nested narrower block; '
+                'containers 150/200/320px; every float judged by the nine rules of 9.5.1 against all earlier floats and '
+                'lines, every line/root/table against every float', 'floats')
+
+
 def check(run):
     rng = random.Random(run.seed * 7919 + 11)
     thorough = run.tier == 'thorough'
@@ -383,6 +632,7 @@ def check(run):
     check_abs_direct(run, rng, thorough, S)
     check_float_direct(run, rng, thorough, S)
     S.run(run)
+    check_float_monitor(run, rng, thorough)
 
 
 def replay(data):
